@@ -387,6 +387,16 @@ def kernel_corpus(w, target):
            ('netlink-empty', b''), ('netlink-3-octets', b'\1\2\3'),
            ('netlink-error-frame', K.ack(b'\0' * 16, 12)),
            ('netlink-done', struct.pack('<IHHII', 16, 3, 0, 1, 0))]
+    # genuine kernel events at a moment the daemon did not choose: the soft / hard expire of every SPI its CHILD_SAs hold
+    # (the kernel reports both SAs of a pair, and it does so whatever exchange the IKE_SA is in the middle of)
+    n = 0
+    for sa in ep.controller.ike_sas:
+        for ch in sa.child_sas:
+            for which, spi in (('in', ch.inbound_spi), ('out', ch.outbound_spi)):
+                for hard in (False, True):
+                    out.append(('expire-held-spi-%d-%s-%s' % (n, which, 'hard' if hard else 'soft'),
+                                K.enc_expire_spi(bytes(spi), a, b, 50, hard)))
+            n += 1
     return out
 
 
